@@ -421,6 +421,54 @@ pub fn run(run: &Run) {
             }
         }
     }
+    // the same object after a refused version byte: if it goes on to answer a digest-bearing packet 1 at all, the
+    // answer must be validly signed (an object that has reported an error is still a reachable state)
+    for role in [Role::Client, Role::Server] {
+        for bad in [0u8, 6, 0xFF] {
+            evals.fetch_add(1, Ordering::Relaxed);
+            let p1 = build_peer_p1(other(role), 0, 123, 0, 77);
+            set_fill(Some(FillSpec { seed: 5, forced_p1: vec![] }));
+            let r = guarded(|| {
+                let mut h = Handshake::new(peer_type(role));
+                let mut out = Vec::new();
+                if role == Role::Client {
+                    out.extend(h.generate_outbound_p0_and_p1().map_err(|e| format!("{:?}", e))?);
+                }
+                let first = h.process_bytes(&[bad]);
+                if first.is_ok() {
+                    return Ok(None); // the byte was not refused: nothing to follow up here (C05 judges acceptance)
+                }
+                let mut input = vec![3u8];
+                input.extend_from_slice(&p1);
+                match h.process_bytes(&input) {
+                    Err(_) => Ok(None),
+                    Ok(HandshakeProcessResult::InProgress { response_bytes }) | Ok(HandshakeProcessResult::Completed { response_bytes, .. }) => {
+                        out.extend(response_bytes);
+                        Ok::<Option<Vec<u8>>, String>(Some(out))
+                    }
+                }
+            });
+            set_fill(None);
+            let replay = json!({"role": format!("{:?}", role), "first_byte_refused": bad, "then": "03 + digest-bearing packet 1", "peer_packet1": hex(&p1)});
+            match r {
+                Err(p) => run.violation(&format!("C11/panic/{:?}/after-refused-version-byte", role), &p, replay),
+                Ok(Err(e)) => run.violation(&format!("C11/packet2-not-produced/{:?}/after-refused-version-byte", role), &e, replay),
+                Ok(Ok(None)) => {}
+                Ok(Ok(Some(out))) => {
+                    if out.len() == 3073 {
+                        let p2 = &out[1537..];
+                        let off = digest_offset(&p1, 0);
+                        let k = hmac_sha256(&full_key(role), &p1[off..off + 32]);
+                        if hmac_sha256(&k, &p2[..1504])[..] != p2[1504..] {
+                            run.violation(&format!("C11/packet2-signature-invalid/{:?}/after-refused-version-byte", role), &format!("after version byte {} was refused, the answer to 03 + a digest-bearing packet 1 is not validly signed", bad), replay);
+                        } else {
+                            extra_ok.fetch_add(1, Ordering::Relaxed);
+                        }
+                    }
+                }
+            }
+        }
+    }
     run.count("packet2_correct_with_further_buffered_bytes", extra_ok.load(Ordering::Relaxed));
 
     // ---- 2e. every packet 1 an object generates is valid, not only its first ----
